@@ -56,7 +56,7 @@ BaseOps == {Proj({"a"}), Sel(Cmp("eq", A, Lit(1))), Dedup, Sort(TotalAB), Sort(<
 
 AllFinalOps ==
     {Calc("e", Fn("neg", <<A>>)), Calc("e", Fn("add", <<A, D>>)),
-     Proj({"a"}), Proj({"b"}), Proj({"a", "d"}), Proj({}),
+     Proj({"a"}), Proj({"b"}), Proj({"a", "d"}), Proj({}), Proj({"a", "b"}),
      Sel(Cmp("eq", A, Lit(0))), Sel(Cmp("lt", B, A)), Sel(Cmp("gt", D, Lit(0))), Sel(PLit(FALSE)),
      Dedup,
      Sort(<<Term(A, FALSE)>>), Sort(TotalAB), Sort(<<Term(D, TRUE), Term(A, TRUE)>>),
@@ -64,7 +64,7 @@ AllFinalOps ==
 \* the documented no-op forms, issued with every option combination as well
 NoOpForms(cols) == {Sort(<<>>), Slice(0, -1), Proj(cols), Sel(PLit(TRUE))}
 FinalMenu(cols) == {op \in (IF FinalOps = "all" THEN AllFinalOps
-                            ELSE {Calc("e", Fn("neg", <<A>>)), Proj({"a"}), Proj({"b"}), Sel(Cmp("eq", A, Lit(0))), Dedup,
+                            ELSE {Calc("e", Fn("neg", <<A>>)), Proj({"a"}), Proj({"b"}), Proj({"a", "b"}), Sel(Cmp("eq", A, Lit(0))), Dedup,
                                   Sort(TotalAB), Slice(0, 1)})
                       : BeginErr(op, cols) = "none" /\ ~(op.o = "calc" /\ op.tag \in cols)}
                      \cup NoOpForms(cols)
